@@ -1401,7 +1401,7 @@ theorem Adv.newline (p : P) (hw : W p) (l : Nat) :
   rw [qa.toks, hs, step_nl]
 
 /-- the operator of a binary command with the layout around it -/
-theorem Adv.binaryOp (p : P) (hw : W p) (hl : LastWG p) (hsk : p.sum.sk = false) (opPos : Pos) (op : BinOp)
+theorem Adv.binaryOp (p : P) (hw : W p) (hl : LastWG p) (_hsk : p.sum.sk = false) (opPos : Pos) (op : BinOp)
     (yl : Nat) (yb : Bool) :
     ∃ nl : Bool, Adv p (p.binaryOp opPos op yl yb).1 (opA op :: nlT nl) ∧ (p.binaryOp opPos op yl yb).1.sum.sk = nl := by
   unfold P.binaryOp
@@ -1613,11 +1613,203 @@ theorem lin_cmd : ∀ (c : Cmd), c.lin = true → c.wf = true → ∀ (p : P), W
     · intro _
       rw [qe.same.wsemi, hy.wsemi, hyt]
       rfl
-    · simp only [LCmd.endsInWord, LStmt.endsInWord]
+    · simp only [LCmd.endsInWord]
       obtain ⟨n, c, t⟩ := lsy
       simp only [LStmt.term] at hyt
       subst hyt
       simpa [LStmt.endsInWord, LStmt.cmd] using hy.ew
 end
+
+
+/-! ## Lists of linear statements -/
+
+def LStmt.withTerm : LStmt → Term → LStmt
+  | .mk n c _, t => .mk n c t
+
+theorem LStmt.withTerm_semi (ls : LStmt) (h : ls.term = .none) :
+    (ls.withTerm .semi).toks = ls.toks ++ [.semi] ∧ (ls.withTerm .semi).valid = ls.valid ∧
+    (ls.withTerm .semi).norm = ls.norm ∧ (ls.withTerm .semi).term = .semi := by
+  obtain ⟨n, c, t⟩ := ls
+  simp only [LStmt.term] at h
+  subst h
+  refine ⟨by simp [LStmt.withTerm, LStmt.toks, Term.toks], by simp [LStmt.withTerm, LStmt.valid], ?_, rfl⟩
+  simp only [LStmt.withTerm, LStmt.norm]
+  rfl
+
+theorem Stmts.lin_cons {s : Stmt} {r : Stmts} (h : (Stmts.cons s r).lin = true) : s.lin = true ∧ r.lin = true := by
+  simpa [Stmts.lin] using h
+
+/-- the state after a linear statement, as the loop leaves it -/
+theorem post_of_stmtOut {q : P} {s : Stmt} {ls : LStmt} (hs : StmtOut q (q.stmt s) s ls)
+    (hm : q.mustNewline = false) (hf : q.firstLine = false) (hr : refuse q.o = false) :
+    Post { (q.stmt s) with wantNewline := true } := by
+  refine ⟨⟨hs.adv.w.ok, hs.adv.w.gap⟩, hs.ws, rfl, hs.adv.must hm, by show (q.stmt s).firstLine = false; rw [hs.adv.first, hf],
+    hs.sk, ?_, by show refuse (q.stmt s).o = false; rw [hs.adv.o]; exact hr⟩
+  intro h
+  have h' : (q.stmt s).wroteSemi = false := h
+  rw [hs.wsemi] at h'
+  have : ls.term = .none := by
+    cases ht : ls.term <;> simp [ht] at h' ⊢
+  exact hs.last this
+
+theorem loop_lin : ∀ (ss : Stmts), ss.lin = true → ss.wf = true → ss ≠ .nil → ∀ (p : P), Post p →
+    ∃ (pre : List ATok) (lt : LStmts),
+      (p.stmtListLoop false ss).sum.toks = p.sum.toks ++ (pre ++ lt.toks) ∧ lt.valid = true ∧ lt.norm = ss.norm ∧
+      lt.finalNl = false ∧ Done p (p.stmtListLoop false ss) ∧
+      ((p.o.singleLine = false ∧ pre = [.newl]) ∨
+       (p.o.singleLine = true ∧ pre = (if p.wroteSemi then [] else [ATok.semi])))
+  | .nil, _, _, hne, _, _ => absurd rfl hne
+  | .cons s rest, hlin, hwf, _, p, hp => by
+    obtain ⟨hslin, hrlin⟩ := Stmts.lin_cons hlin
+    obtain ⟨hswf, hrwf⟩ := Stmts.wf_cons hwf
+    obtain ⟨pre, t1, w1, o1, m1, f1, hpre⟩ := stmtSep_post p hp s.pos.line
+    obtain ⟨ls, hs⟩ := lin_stmt s hslin hswf (p.stmtSep false s.pos.line) w1
+    have hpost : Post { ((p.stmtSep false s.pos.line).stmt s) with wantNewline := true } :=
+      post_of_stmtOut hs m1 f1 (by rw [o1]; exact hp.notRefused)
+    have hpso : ((p.stmtSep false s.pos.line).stmt s).o = p.o := by rw [hs.adv.o, o1]
+    have hunf : p.stmtListLoop false (.cons s rest) =
+        P.stmtListLoop { ((p.stmtSep false s.pos.line).stmt s) with wantNewline := true } false rest := by
+      rw [P.stmtListLoop]
+    rw [hunf]
+    have htoks : (P.sum { ((p.stmtSep false s.pos.line).stmt s) with wantNewline := true }).toks =
+        p.sum.toks ++ (pre ++ ls.toks) := by
+      show ((p.stmtSep false s.pos.line).stmt s).sum.toks = _
+      rw [hs.adv.toks, t1, List.append_assoc]
+    cases rest with
+    | nil =>
+      rw [P.stmtListLoop]
+      refine ⟨pre, .one ls false, ?_, by simpa [LStmts.valid] using hs.valid, by simp [LStmts.norm, Stmts.norm, hs.norm],
+        rfl, ⟨hpost.w, hpost.sk, hpso⟩, hpre⟩
+      rw [htoks]
+      simp [LStmts.toks, nlT]
+    | cons s2 rest2 =>
+      obtain ⟨pre2, lt2, r1, r2, r3, rf, r4, r5⟩ := loop_lin (.cons s2 rest2) hrlin hrwf (by simp) _ hpost
+      have hdone : Done p (P.stmtListLoop { ((p.stmtSep false s.pos.line).stmt s) with wantNewline := true } false (.cons s2 rest2)) :=
+        ⟨r4.w, r4.sk, r4.o.trans hpso⟩
+      have hwsemi : (({ ((p.stmtSep false s.pos.line).stmt s) with wantNewline := true } : P)).wroteSemi = (ls.term != .none) := hs.wsemi
+      rcases r5 with ⟨hsl, rfl⟩ | ⟨hsl, rfl⟩
+      · refine ⟨pre, .cons ls true lt2, ?_, by simp [LStmts.valid, hs.valid, r2], by simp [LStmts.norm, Stmts.norm, hs.norm, r3],
+          rf, hdone, hpre⟩
+        rw [r1, htoks]
+        simp [LStmts.toks, nlT, List.append_assoc]
+      · rw [hwsemi] at r1
+        cases hterm : ls.term with
+        | none =>
+          obtain ⟨a1, a2, a3, a4⟩ := LStmt.withTerm_semi ls hterm
+          refine ⟨pre, .cons (ls.withTerm .semi) false lt2, ?_, ?_, by simp [LStmts.norm, Stmts.norm, a3, hs.norm, r3],
+            rf, hdone, hpre⟩
+          · rw [r1, htoks, hterm]
+            simp [LStmts.toks, nlT, a1, List.append_assoc]
+          · simp only [LStmts.valid, a2, hs.valid, a4, r2]
+            rfl
+        | semi =>
+          refine ⟨pre, .cons ls false lt2, ?_, ?_, by simp [LStmts.norm, Stmts.norm, hs.norm, r3], rf, hdone, hpre⟩
+          · rw [r1, htoks, hterm]
+            simp [LStmts.toks, nlT, List.append_assoc]
+          · simp only [LStmts.valid, hs.valid, hterm, r2]
+            rfl
+        | amp =>
+          refine ⟨pre, .cons ls false lt2, ?_, ?_, by simp [LStmts.norm, Stmts.norm, hs.norm, r3], rf, hdone, hpre⟩
+          · rw [r1, htoks, hterm]
+            simp [LStmts.toks, nlT, List.append_assoc]
+          · simp only [LStmts.valid, hs.valid, hterm, r2]
+            rfl
+
+
+/-- The printer half of the round trip for programs without subshells and blocks (simple commands
+    joined by `&&`, `||`, `|`, with `!`, `&`, `;`): for every option set and every assignment of
+    positions the bytes printed are a concrete syntax of the tree. -/
+theorem print_in_Prints_lin (o : Opts) (f : File) (b : Bytes) (hwf : f.wf = true) (hlin : f.stmts.lin = true)
+    (hne : f.stmts ≠ .nil) (hp : printFile o f = .ok b) :
+    ∃ (ps : List Piece) (lt : LStmts), b = render ps ∧ lexChain ps = true ∧ lt.valid = true ∧
+      expect false ps = nlT false ++ (lt.toks ++ [.eof]) ∧ lt.norm = f.norm := by
+  unfold printFile at hp
+  split at hp
+  · cases hp
+  · rename_i href
+    have href' : refuse o = false := by simpa using href
+    have hinv := ((Inv.init o).stmtList f.stmts hwf).newline 0
+    rw [hinv.finish] at hp
+    simp only [Except.ok.injEq] at hp
+    subst hp
+    obtain ⟨ss⟩ := f
+    simp only at hwf hlin hne
+    cases ss with
+    | nil => exact absurd rfl hne
+    | cons s rest =>
+      obtain ⟨hslin, hrlin⟩ := Stmts.lin_cons hlin
+      obtain ⟨hswf, hrwf⟩ := Stmts.wf_cons hwf
+      obtain ⟨s1, s2, s3, s4⟩ := stmtSep_first o s.pos.line
+      have hw0 : W ((P.init o).stmtSep true s.pos.line) :=
+        ⟨by simp [P.sum, s1, summarize], fun l hl _ => by simp [P.sum, s1, summarize] at hl⟩
+      have hsum0 : ((P.init o).stmtSep true s.pos.line).sum.toks = [] := by simp [P.sum, s1, summarize]
+      obtain ⟨ls, hs⟩ := lin_stmt s hslin hswf _ hw0
+      have hpost : Post { (((P.init o).stmtSep true s.pos.line).stmt s) with wantNewline := true } :=
+        post_of_stmtOut hs s3 s2 (by rw [s4]; exact href')
+      have hpso : (((P.init o).stmtSep true s.pos.line).stmt s).o = o := by rw [hs.adv.o, s4]
+      have htoks : (P.sum { (((P.init o).stmtSep true s.pos.line).stmt s) with wantNewline := true }).toks = ls.toks := by
+        show (((P.init o).stmtSep true s.pos.line).stmt s).sum.toks = _
+        rw [hs.adv.toks, hsum0]
+        simp
+      have hwsemi : (({ (((P.init o).stmtSep true s.pos.line).stmt s) with wantNewline := true } : P)).wroteSemi =
+          (ls.term != .none) := hs.wsemi
+      have hloop : ∃ (lt : LStmts) (pf : P), pf = (P.init o).stmtListLoop true (.cons s rest) ∧
+          pf.sum.toks = lt.toks ∧ lt.valid = true ∧ lt.norm = (Stmts.cons s rest).norm ∧
+          lt.finalNl = false ∧ W pf ∧ pf.sum.sk = false := by
+        have hunf : (P.init o).stmtListLoop true (.cons s rest) =
+            P.stmtListLoop { (((P.init o).stmtSep true s.pos.line).stmt s) with wantNewline := true } false rest := by
+          rw [P.stmtListLoop]
+        rw [hunf]
+        cases rest with
+        | nil =>
+          refine ⟨.one ls false, _, by rw [P.stmtListLoop], ?_, by simpa [LStmts.valid] using hs.valid,
+            by simp [LStmts.norm, Stmts.norm, hs.norm], rfl, hpost.w, hpost.sk⟩
+          rw [htoks]
+          simp [LStmts.toks, nlT]
+        | cons s2 rest2 =>
+          obtain ⟨pre2, lt2, r1, r2, r3, rf, r4, r5⟩ := loop_lin (.cons s2 rest2) hrlin hrwf (by simp) _ hpost
+          rcases r5 with ⟨hsl, rfl⟩ | ⟨hsl, rfl⟩
+          · refine ⟨.cons ls true lt2, _, rfl, ?_, by simp [LStmts.valid, hs.valid, r2],
+              by simp [LStmts.norm, Stmts.norm, hs.norm, r3], rf, r4.w, r4.sk⟩
+            rw [r1, htoks]
+            simp [LStmts.toks, nlT]
+          · rw [hwsemi] at r1
+            cases hterm : ls.term with
+            | none =>
+              obtain ⟨a1, a2, a3, a4⟩ := LStmt.withTerm_semi ls hterm
+              refine ⟨.cons (ls.withTerm .semi) false lt2, _, rfl, ?_, ?_,
+                by simp [LStmts.norm, Stmts.norm, a3, hs.norm, r3], rf, r4.w, r4.sk⟩
+              · rw [r1, htoks, hterm]
+                simp [LStmts.toks, nlT, a1, List.append_assoc]
+              · simp only [LStmts.valid, a2, hs.valid, a4, r2]
+                rfl
+            | semi =>
+              refine ⟨.cons ls false lt2, _, rfl, ?_, ?_, by simp [LStmts.norm, Stmts.norm, hs.norm, r3], rf, r4.w, r4.sk⟩
+              · rw [r1, htoks, hterm]
+                simp [LStmts.toks, nlT]
+              · simp only [LStmts.valid, hs.valid, hterm, r2]
+                rfl
+            | amp =>
+              refine ⟨.cons ls false lt2, _, rfl, ?_, ?_, by simp [LStmts.norm, Stmts.norm, hs.norm, r3], rf, r4.w, r4.sk⟩
+              · rw [r1, htoks, hterm]
+                simp [LStmts.toks, nlT]
+              · simp only [LStmts.valid, hs.valid, hterm, r2]
+                rfl
+      obtain ⟨lt, pf, hpf, ht, hv, hn, hfn, hwpf, hskpf⟩ := hloop
+      obtain ⟨f1, f2, f3⟩ := LStmts.withFinalNl_facts lt hfn
+      have hout : (((P.init o).stmtList (.cons s rest)).newline 0).out = .gap [10] :: pf.out := by
+        have := (P.stmtListWith_out (P.init o) (.cons s rest) (fun q => q.stmtListLoop true (.cons s rest))).1
+        unfold P.stmtList
+        show Piece.gap [10] :: _ = _
+        rw [this, hpf]
+      refine ⟨_, lt.withFinalNl, rfl, ?_⟩
+      have hsumF : summarize {} ((((P.init o).stmtList (.cons s rest)).newline 0).out.reverse) =
+          pf.sum.step (.gap [10]) := by
+        rw [hout]
+        simp [P.sum, summarize, List.foldl_append]
+      obtain ⟨c1, c2⟩ := lexChain_expect_init _ (by rw [hsumF, step_nl]; exact hwpf.ok) (by rw [hsumF, step_nl]; rfl)
+      refine ⟨c1, by rw [f2]; exact hv, ?_, by rw [f3, hn]; rfl⟩
+      rw [c2, hsumF, step_nl, hskpf, ht, f1]
+      simp [nlT]
 
 end ShVerif.L4
